@@ -336,6 +336,14 @@ impl V {
                 Ok(())
             }
             Pat::Alt(ps) => {
+                // `(Name[v] | v)`: the one alternation with binders in the fragment
+                if let Some((v, t)) = super::progen::unwrap_or_self(ps, ty) {
+                    if in_alt || seen.iter().any(|s| s.0 == v) {
+                        return Err("nested / repeated unwrap-or-self alternation".into());
+                    }
+                    seen.push((v, t));
+                    return Ok(());
+                }
                 for p in ps {
                     self.check_sub(env, p, ty, seen, true)?;
                 }
@@ -950,6 +958,7 @@ fn non_type_alt_inside_partial(p: &Pat, inside: bool) -> bool {
 
 fn alt_of_structured(p: &Pat) -> bool {
     match p {
+        Pat::Alt(ps) if matches!(ps.as_slice(), [Pat::Tup(Some(_), fs), Pat::Bind(v)] if matches!(fs.as_slice(), [(None, Pat::Bind(w))] if w == v)) => false,
         Pat::Alt(ps) => ps.iter().any(|q| !matches!(q, Pat::Lit(_) | Pat::Type(_) | Pat::Wild) && !matches!(q, Pat::Tup(_, fs) if fs.is_empty())),
         Pat::Tup(_, fs) => fs.iter().any(|(_, q)| alt_of_structured(q)),
         Pat::Part(_, fs) => fs.iter().any(|(_, q)| q.as_ref().map(alt_of_structured).unwrap_or(false)),
